@@ -141,7 +141,9 @@ def hostile_bytes(case):
         cur = b[pos] if width == 1 else struct.unpack_from(e + 'I', b, pos)[0]
         rest = len(b) - pos - width
         new = {'zero': 0, 'minus1': cur - 1, 'plus1': cur + 1, 'big31': 2**31, 'max': 2**32 - 1,
-               'rest': rest, 'rest-1': rest - 1, 'rest+1': rest + 1, 'plus8': cur + 8}[case['lie']]
+               'rest': rest, 'rest-1': rest - 1, 'rest+1': rest + 1, 'plus8': cur + 8,
+               'near-max': 2**32 - 1 - case.get('k', 0), 'near-half': 2**31 - 8 + case.get('k', 0),
+               'rnd32': case.get('rnd', 0)}[case['lie']]
         if width == 1:
             b[pos] = new % 256
         else:
@@ -223,8 +225,29 @@ def hostile_case(draw, tier):
     else:
         case['which'] = draw(st.integers(0, 200))
         case['lie'] = draw(st.sampled_from(['zero', 'minus1', 'plus1', 'big31', 'max', 'rest', 'rest-1', 'rest+1',
-                                            'plus8']))
+                                            'plus8', 'near-max', 'near-max', 'near-half', 'rnd32']))
+        case['k'] = draw(st.integers(0, 16))
+        case['rnd'] = draw(st.integers(0, 2**32 - 1))
     return case
+
+
+def enum_length_sweep(tier):
+    """Every length field of a few fixed messages rewritten to each value of the windows
+    [2^32-17, 2^32-1] and [2^31-8, 2^31+8] (signed/unsigned confusions live there)."""
+    msgs = [
+        {'type': 1, 'fields': {'path': '/a/b', 'member': 'M', 'interface': 'a.b', 'destination': 'c.d'}, 'sig': 'asa{sv}s',
+         'trees': [['x', 'yz'], [['k', ['s', 'v']]], 'tail'], 'pres': [], 'no_reply': False, 'no_auto': False, 'serial': 5},
+        {'type': 4, 'fields': {'path': '/', 'member': 'S', 'interface': 'a.b'}, 'sig': 'a(so)ay',
+         'trees': [[['p', '/q']], [1, 2, 3]], 'pres': [], 'no_reply': False, 'no_auto': False, 'serial': 6},
+    ]
+    for mi, msg in enumerate(msgs):
+        for little in (True, False):
+            marks = []
+            _valid_bytes({'msg': msg, 'little': little}, marks)
+            for which in range(len(marks)):
+                for k in range(0, 17):
+                    yield {'kind': 'lie', 'msg': msg, 'little': little, 'which': which, 'lie': 'near-max', 'k': k}
+                    yield {'kind': 'lie', 'msg': msg, 'little': little, 'which': which, 'lie': 'near-half', 'k': k}
 
 
 def _fix_fields(case):
@@ -342,5 +365,7 @@ SUBCHECKS = [
     Subcheck('hostile_list', run, classify_, enumerate=enum_hostile, shards={'quick': 4, 'thorough': 4},
              exhaustive_note='%d listed hostile signatures x 2 placements x 4 declared lengths x 2 byte orders'
                              % len(HOSTILE_SIGS)),
+    Subcheck('length_sweep', run, classify_, enumerate=enum_length_sweep, shards={'quick': 4, 'thorough': 4},
+             exhaustive_note='every length field of 2 fixed messages x 2 byte orders x 34 values around 2^32 and 2^31'),
     Subcheck('atheris', run_any, classify_any, enumerate=enum_atheris, shards={'quick': 1, 'thorough': 8}),
 ]
